@@ -55,7 +55,8 @@ META = {
         'durations, octave (0..9), alter (-2..2), fifths (-7..7), transpose '
         '(-12..12), MIDI channel/program, voice are symbolic',
         'score structure from the templates single, chord, rest, two_voices, '
-        'two_measures, two_parts, retranspose, harmony (one <harmony> '
+        'two_measures, two_parts, retranspose, key_changes (three measures, '
+        'each declaring a key, fifths symbolic in -2..2), harmony (one <harmony> '
         'with root / kind / one degree / bass / offset; step letters, kind '
         'and degree value concrete per job, the three alters and the offset '
         'symbolic)',
@@ -147,7 +148,10 @@ def h_score(c):
   measure_len = D * 4 * beats // beat_type
   # the key is symbolic in the single-measure templates; the larger templates
   # (whose paths multiply with the number of notes) use a fixed key
-  fifths = c.int('fifths', -7, 7) if tpl in ('single', 'chord') else -3
+  if tpl == 'key_changes':
+    fifths = c.int('fifths', -2, 2)
+  else:
+    fifths = c.int('fifths', -7, 7) if tpl in ('single', 'chord') else -3
   transpose = c.int('transpose', -12, 12) if c.params.get('transpose') else None
   chan = c.int('chan', 1, 16)
   prog = c.int('prog', 1, 128)
@@ -244,6 +248,28 @@ def h_score(c):
     parts_xml.append(xml)
     scripts.append([[('tempo', qpm), ('note', 0, 'C', 1), ('note', 1, 'D', 1)],
                     [('tempo', q2), ('note', 2, 'E', 1), ('note', 3, 'F', 1)]])
+  elif tpl == 'key_changes':
+    # three measures, each declaring a key (the third may return to the first)
+    fs = [fifths, c.int('fifths2', -2, 2), c.int('fifths3', -2, 2)]
+    durs(['n0_dur'], measure_len)
+    durs(['n1_dur'], measure_len)
+    durs(['n2_dur'], measure_len)
+    xml = ''
+    script = []
+    for mi in range(3):
+      xml += '<measure number="%d">' % (mi + 1)
+      if mi == 0:
+        xml += attributes() + tempo(qpm)
+        script.append([('tempo', qpm), ('key', fs[0]), ('note', 0, 'C', 1)])
+      else:
+        xml += ('<attributes><key><fifths>%s</fifths>%s</key></attributes>' %
+                (b.num('fifths%d' % (mi + 1), fs[mi]),
+                 '<mode>%s</mode>' % mode if mode else ''))
+        script.append([('key', fs[mi]), ('note', mi, 'DEF'[mi], 1)])
+      xml += _note_xml(b, mi, 'CEF'[mi] if mi == 0 else 'DEF'[mi], voice=1,
+                       with_alter=False) + '</measure>'
+    parts_xml.append(xml)
+    scripts.append(script)
   elif tpl == 'harmony':
     # <harmony> between two notes: root / kind / one degree / bass / offset
     hp = c.params['harmony']
@@ -337,6 +363,7 @@ def h_score(c):
   cur_qpm = 120.0
   tempos = []
   chords = []
+  keys = []
   for pi, measures in enumerate(scripts):
     t = 0
     tr = 0
@@ -353,6 +380,8 @@ def h_score(c):
             tempos.append((t, cur_qpm))
         elif item[0] == 'transpose':
           tr = item[1]
+        elif item[0] == 'key':
+          keys.append((t, item[1]))
         elif item[0] == 'harmony':
           hm = item[1]
           chords.append((t + hm.get('offset', 0) * (60.0 / cur_qpm) / D, hm))
@@ -403,6 +432,17 @@ def h_score(c):
     c.check(c.eq(ks.key, want_key), 'key tonic from <fifths>')
     c.check(c.eq(ks.mode, want_mode), 'major or minor from <mode>')
     c.check(c.eq(ks.time, 0), 'key signature at the time it occurs')
+  if tpl == 'key_changes':
+    c.check(len(seq.key_signatures) == len(keys),
+            'one key signature per declared key, also when an earlier key '
+            'returns')
+    for ks_, (kt, kf) in zip(seq.key_signatures, keys):
+      tonic_ = (kf * 7) % 12
+      if mode == 'minor':
+        tonic_ = (tonic_ + 9) % 12
+      c.check(c.And(c.approx(ks_.time, kt, 1e-9), c.eq(ks_.key, tonic_),
+                    c.eq(ks_.mode, 1 if mode == 'minor' else 0)),
+              'every key signature at the time it occurs')
   c.check(len(seq.time_signatures) >= 1 and
           bool(c.And(c.eq(seq.time_signatures[0].numerator, beats),
                      c.eq(seq.time_signatures[0].denominator, beat_type),
@@ -474,6 +514,8 @@ def jobs(tier):
   add(template='two_measures', qpm=60, qpm2=120)
   add(template='two_parts', transpose=True)
   add(template='retranspose', transpose=True)
+  add(template='key_changes', mode='minor')
+  add(template='key_changes', mode='major', meter=[3, 4], qpm=90)
   add(template='harmony', harmony={'root': 'C', 'kind': 'major'})
   add(template='harmony', harmony={'root': 'F', 'kind': 'minor-seventh',
                                    'degree': [9, 'add'], 'bass': 'A'})
